@@ -60,4 +60,5 @@ var genericCmds = map[string]func(common.Args, *common.Out) error{
 	"progrun":    generic.ProgRun,
 	"satexport":  generic.SatExport,
 	"satenum":    generic.SatEnum,
+	"levelcheck": generic.LevelCheck,
 }
